@@ -33,8 +33,8 @@ ASSUMPTIONS = [
     "a sentinel still present after 20 s while the tracker is alive counts as 'not deleted at zero'; a dead tracker as 'tracker stopped'",
 ]
 SHARDS = {"quick": 10, "thorough": 14}
-FLOORS = {"quick": {"e2e_runs": 6, "scripts": 120, "requests_checked": 1500, "malformed_requests": 200, "clients_killed": 40, "deletions_at_zero": 100, "zero_reached_while_path_missing": 40, "created_again_after_zero_while_missing": 30},
-          "thorough": {"e2e_runs": 50, "scripts": 2500, "requests_checked": 40000, "malformed_requests": 4000, "clients_killed": 800, "deletions_at_zero": 2000, "zero_reached_while_path_missing": 800, "created_again_after_zero_while_missing": 600}}
+FLOORS = {"quick": {"e2e_runs": 6, "scripts": 120, "requests_checked": 1500, "malformed_requests": 200, "clients_killed": 40, "deletions_at_zero": 100, "zero_reached_while_path_missing": 40, "created_again_after_zero_while_missing": 30, "requests_longer_than_4000_bytes": 60},
+          "thorough": {"e2e_runs": 50, "scripts": 2500, "requests_checked": 40000, "malformed_requests": 4000, "clients_killed": 800, "deletions_at_zero": 2000, "zero_reached_while_path_missing": 800, "created_again_after_zero_while_missing": 600, "requests_longer_than_4000_bytes": 1200}}
 CLIENT = os.path.join(harness.VERIF, "checks", "c20_client.py")
 
 
@@ -212,6 +212,17 @@ def run_case(case, ctx):
                 os.makedirs(sub)
                 folders.append(sub)
                 inside[sub] = fo
+        if rng.random() < 0.35:
+            # a path just below PATH_MAX (its request line is longer than a pipe buffer / a page): nested plain directories
+            target = rng.choice([4060, 4070, 4078, 4081, 4085, 4090, 4094, 4095])
+            deep = os.path.join(d, "deep")
+            while len(deep) + 1 + 200 + 1 + 8 <= target:
+                deep = os.path.join(deep, "n" * 200)
+            pad = target - len(deep) - 1 - 4
+            if 1 <= pad <= 250:
+                os.makedirs(deep)
+                files.append(os.path.join(deep, "f" * pad + ".bin"))
+                ctx.count("scripts_with_a_path_near_PATH_MAX")
         tracked_files = files + [p for p in inside if p not in folders]
         decoys = [os.path.join(d, "decoy.bin")] + [os.path.join(fo, "decoy.bin") for fo in folders]
         for p in tracked_files + decoys:
@@ -303,8 +314,13 @@ def run_case(case, ctx):
             c = count[rt].get(p, 0)
             if p not in present:
                 ctx.count("requests_on_missing_paths")
-            cl.send(op=op, name=p, rtype=rt)
-            script.append((ci, op, os.path.basename(p), rt))
+            if len(p) > 400:
+                # loky's client API refuses such names: the request goes down the pipe as a raw line
+                cl.send(op="RAW", hex=f"{op}:{p}:{rt}\n".encode().hex())
+                ctx.count("requests_longer_than_4000_bytes" if len(p) > 4000 else "requests_longer_than_400_bytes")
+            else:
+                cl.send(op=op, name=p, rtype=rt)
+            script.append((ci, op, os.path.basename(p)[:40] + (f"..[path of {len(p)} chars]" if len(p) > 400 else ""), rt))
             if op == "REGISTER":
                 count[rt][p] = c + 1
                 ever.add(p)
